@@ -67,7 +67,7 @@ func (s *Synchronized[T]) Set(in T)   { s.Store(in) }
 func (s *Synchronized[T]) Store(in T) { s.Using(func() { s.obj = in }) }
 
 // String implements fmt.Stringer using this type.
-func (s *Synchronized[T]) String() string { return fmt.Sprint(s.Get()) }
+func (s *Synchronized[T]) String() string { defer With(Lock(&s.mtx)); return fmt.Sprint(s.obj) }
 
 // Get returns the underlying protected object. Use with caution.
 func (s *Synchronized[T]) Get() T  { return s.Load() }
